@@ -48,11 +48,6 @@ def h(t, part):
         pass
     rec = Recorder()
     setattr(rec, helper, arecord if is_coro else record)
-    ns = nscls('/registered')
-    if 'Client' in cname:
-        ns._set_client(rec)
-    else:
-        ns._set_server(rec)
     # ---- which arguments are given, how, and with which values ---------------------------------------------------
     hsig = inspect.signature(getattr(nscls, helper))
     hnames = set(list(hsig.parameters)[1:])
@@ -69,6 +64,13 @@ def h(t, part):
     if 'npos' in part:
         t.force([part['npos']])
     npos = t.choice(maxpos + 1)
+    ns = nscls('/registered')
+    rebound = npos % 2 == 1  # the object was registered with another server/client before (app factory called twice)
+    for target in ([Recorder()] if rebound else []) + [rec]:
+        if 'Client' in cname:
+            ns._set_client(target)
+        else:
+            ns._set_server(target)
     given = {}
     for i, n in enumerate(names):
         if i < npos or n in required or t.bool():
@@ -111,6 +113,17 @@ def h(t, part):
                         '/registered)' % (given.get('namespace', '<omitted>'), got.get('namespace')))
     if ret is not RET:
         return Fail('helper:%s.%s:return' % (cname, helper), repr(ret))
+    # a later call without a namespace still means the registration namespace (an earlier override must not stick)
+    if 'namespace' in names and given.get('namespace'):
+        del calls[:]
+        req = [given[n] for n in names if n in required]
+        try:
+            drv.call(getattr(ns, helper)(*req))
+        except TypeError as e:
+            return Fail('helper:%s.%s:rejects-arguments' % (cname, helper), 'second call %r: %r' % (req, e))
+        if len(calls) != 1 or calls[0].get('namespace') != '/registered':
+            return Fail('helper:%s.%s:namespace-override-sticks' % (cname, helper), 'after an explicit namespace=%r a call without '
+                        'namespace reached %r' % (given.get('namespace'), calls))
     return None
 
 
@@ -126,7 +139,7 @@ def parts(tier):
     return out
 
 
-CHECKS = [dict(name='helpers', fn=h, parts=parts, budget={'quick': 60, 'thorough': 300}, per_path_s=15)]
+CHECKS = [dict(name='helpers', fn=h, parts=parts, budget={'quick': 180, 'thorough': 300}, per_path_s=15)]
 
 META = dict(
     explanation='Every helper of the four namespace classes is called on an object registered for "/registered" whose '
